@@ -350,8 +350,17 @@ def one(ctx, c, setname, a, transports, do_transports, rng):
                         _sys3.modules["sgio" if tname == "sgio" else "iscsi"].handler = None
                         try:
                             del log[:]
-                            _R.put(cmd2.cdb, byte, msb, width, 0)
-                            _R.put(cmd2.cdb, byte, msb, width, new_len)
+                            old_len = _R.get(cmd2.cdb, byte, msb, width)
+                            d = type(cmd2).unmarshall_cdb(cmd2.cdb)
+                            keys = [k for k, v in d.items() if v == old_len and k != "opcode"]
+                            if FIRST[0] % 2 and len(keys) == 1 and old_len != new_len:
+                                # ... or builds the command's CDB again with the new length (cmd.cdb = cmd.build_cdb(...))
+                                d[keys[0]] = new_len
+                                cmd2.cdb = cmd2.build_cdb(**d)
+                                ctx.count("adjusted_by_build_cdb")
+                            else:
+                                _R.put(cmd2.cdb, byte, msb, width, 0)
+                                _R.put(cmd2.cdb, byte, msb, width, new_len)
                             cmd2.datain = bytearray(new_len)
                             dev.execute(cmd2)
                             ctx.count("adjusted_commands_handed_over_again")
